@@ -652,7 +652,7 @@ static void mt_post (int nprod, int nper, int maxev, uint64_t seed)
       pr[i].id = i, pr[i].nper = nper, pr[i].seed = seed * 131 + i, pr[i].refused = 0;
       pthread_create (&th[i], 0, post_producer, &pr[i]);
     }
-  deadline = now_ms () + 20000;
+  deadline = now_ms () + 8000;
   while (got + lost < total && now_ms () < deadline)
     {
       struct timeval tv = { 0, 20000 };
@@ -737,7 +737,7 @@ static void mt_queue (int flags, int cap, int nprod, int nper, uint64_t seed)
       pr[i].id = i, pr[i].nper = nper, pr[i].seed = seed * 977 + i, pr[i].retry = exact, pr[i].done = 0;
       pthread_create (&th[i], 0, queue_producer, &pr[i]);
     }
-  deadline = now_ms () + 20000;
+  deadline = now_ms () + 8000;
   int joined = 0;
   for (;;)
     {
